@@ -411,6 +411,15 @@ func (r *contractRun) onMomentum(dm *nom.DetailedMomentum) {
 		return a.Height < b.Height
 	})
 	h := dm.Momentum.Height
+	// C05: the election's input (pillar weights) against the pillar contract's storage and the balances
+	switch w := pillarWeightsMonitor(store); w {
+	case "":
+	case "ok-with-delegations-to-inactive-pillars":
+		c.Hit("weights-checked-with-delegations-to-inactive-pillars")
+	default:
+		r.fail("C05 weights at momentum %d: %s", h, w)
+	}
+	c.Hit("weights-checked")
 	for _, b := range blocks {
 		if b.BlockType != nom.BlockTypeContractReceive || !isModelled(b.Address) {
 			continue
